@@ -435,14 +435,9 @@ func runC02(c *Ctx) {
 	r.Anchor("R3", "receive goroutine", producer != nil)
 	if producer != nil {
 		var read *ssa.Call
-		funcInstrs(producer, func(in ssa.Instruction) {
-			if call, ok := in.(*ssa.Call); ok {
-				n := calleeName(&call.Call)
-				if n == "(*bufio.Reader).ReadString" || n == "(*bufio.Reader).ReadBytes" {
-					read = call
-				}
-			}
-		})
+		for _, lr := range c.lineReads(producer) {
+			read = lr.Site // the bufio read, or the call of a read helper that hands on its text and error
+		}
 		r.Anchor("R3", "framing read in the receive goroutine", read != nil)
 		if read != nil {
 			// every Return must be dominated by the err != nil edge of the read's error result
@@ -754,14 +749,51 @@ func runC11(c *Ctx) {
 
 	// R6: call sites
 	n6 := 0
+	type splitUse struct {
+		cs    ssa.CallInstruction
+		txt   ssa.Value
+		okLen bool
+	}
+	var uses6 []splitUse
 	for _, cs := range c.Callers(split) {
-		fn := cs.Parent()
-		n6++
 		arg1 := cs.Common().Args[1]
 		fv, _ := loadedField(arg1)
 		okLen := fv != nil && fv.Name() == "SplitLen"
-		// text argument: a parameter of the method or strings.Join of its variadic parameter
-		txt := cs.Common().Args[0]
+		// a wrapper that only supplies the configured length: unexported, returns the splitter's result as it is,
+		// passes its own parameter as the text - its callers are the call sites that matter
+		w := cs.Parent()
+		wrapIdx := -1
+		if call, isCall := cs.(*ssa.Call); isCall && w.Object() != nil && !w.Object().Exported() && !addrTaken(w) && len(c.staticCallers(w)) > 0 {
+			onlyRet := true
+			for _, ref := range *call.Referrers() {
+				if _, isR := ref.(*ssa.Return); !isR {
+					if _, isD := ref.(*ssa.DebugRef); !isD {
+						onlyRet = false
+					}
+				}
+			}
+			if pr, isP := cs.Common().Args[0].(*ssa.Parameter); isP && onlyRet && w.Signature.Results().Len() == 1 {
+				for i, q := range w.Params {
+					if q == pr {
+						wrapIdx = i
+					}
+				}
+			}
+		}
+		if wrapIdx >= 0 {
+			for _, s2 := range c.staticCallers(w) {
+				if wrapIdx < len(s2.Common().Args) {
+					uses6 = append(uses6, splitUse{s2, s2.Common().Args[wrapIdx], okLen})
+				}
+			}
+			continue
+		}
+		uses6 = append(uses6, splitUse{cs, cs.Common().Args[0], okLen})
+	}
+	for _, u6 := range uses6 {
+		cs, txt, okLen := u6.cs, u6.txt, u6.okLen
+		fn := cs.Parent()
+		n6++
 		okTxt := false
 		isText := func(v ssa.Value) bool {
 			if _, ok := v.(*ssa.Parameter); ok {
